@@ -9,6 +9,7 @@ from ..common import bitsutil as bu
 from ..common.bitsutil import Bits, mk_bits, concat, trunc, zext, sext, clog2, reduce_and, reduce_or, reduce_xor
 
 PID = 'C05'
+DRIVERS = ['bits']
 MODULE = 'PymtlVerif.Props.C05'
 THEOREMS = ['PV.C05.' + t for t in [
   'get_slice', 'get_slice_bits', 'get_default_bounds', 'get_invalid', 'step_rejected', 'get_bit',
